@@ -201,7 +201,7 @@ func par1(c *Ctx) {
 		}
 	}
 	// canAtom returns true nowhere else
-	for _, r := range ir.Returns(p.canAtom) {
+	for _, r := range ir.ReturnPoints(p.canAtom) {
 		if v, isC := ir.ConstBool(r.Results[0]); isC && v {
 			dom := false
 			for _, call := range callsTo(p.canAtom, p.is) {
@@ -398,7 +398,7 @@ func par2(c *Ctx) {
 		f := p.found
 		c.Mark(f)
 		ok := true
-		for _, r := range ir.Returns(f) {
+		for _, r := range ir.ReturnPoints(f) {
 			v, isC := ir.ConstBool(r.Results[0])
 			if !isC {
 				ok = false
@@ -854,7 +854,7 @@ func par5(c *Ctx) {
 	}
 	// the named results of parse: the cells its final results are loaded from
 	var errCell, sCell *ssa.Alloc
-	for _, r := range ir.Returns(fn) {
+	for _, r := range ir.ReturnPoints(fn) {
 		for _, res := range r.Results {
 			if ld, ok := res.(*ssa.UnOp); ok && ld.Op == token.MUL {
 				if al, isAl := ld.X.(*ssa.Alloc); isAl {
@@ -1176,7 +1176,7 @@ func par6(c *Ctx) {
 					continue
 				}
 				// the returned fragment after Rep
-				for _, r := range ir.Returns(fn) {
+				for _, r := range ir.ReturnPoints(fn) {
 					if r.Block() == e.call.Block() || e.call.Block().Dominates(r.Block()) || ir.Reach(e.call.Block(), nil, nil)[r.Block()] {
 						if len(r.Results) == 2 && e.from == r.Results[1] && e.to == r.Results[0] {
 							okRep = true
@@ -1233,7 +1233,7 @@ func par6(c *Ctx) {
 				// the fragment flows to the return
 				s0, s1 := extractOf(sc, 0), extractOf(sc, 1)
 				flows := false
-				for _, r := range ir.Returns(fn) {
+				for _, r := range ir.ReturnPoints(fn) {
 					if len(r.Results) == 2 && phiHas(r.Results[0], s0) && phiHas(r.Results[1], s1) {
 						flows = true
 					}
